@@ -148,11 +148,11 @@ def replaceInline (rec : Rec) (env : Env) (text : Str) (expand : Expand) : M Str
   else if expand.specials == some true then pure (replaceSpecialChars result)
   else pure result
 
-/-- One step of the `repl(m)` closure of `utils.replaceMatch`; the `Expand` object is mutated by
-    the closure, so it is threaded through. -/
-def replaceMatchStep (rec : Rec) (env : Env) (mt : Match) (expand : Expand) (m : Match) : M (Str × Expand) := do
+/-- The `repl(m)` closure of `utils.replaceMatch`: every `$n` / `$$n` gets its own copy of the
+    expansion options. -/
+def replaceMatchGroup (rec : Rec) (env : Env) (mt : Match) (expand : Expand) (m : Match) : M Str := do
   let dollars ← m.str 1
-  let expand : Expand :=
+  let groupExpand : Expand :=
     if dollars == "$$".toList then { expand with spans := some true } else { expand with specials := some true }
   let digit ← m.str 2
   let i ← match pyInt digit with
@@ -160,24 +160,14 @@ def replaceMatchStep (rec : Rec) (env : Env) (mt : Match) (expand : Expand) (m :
     | none => raise (.valueError "int(m[2])")
   if i > mt.ngroups then
     errorCallback ("undefined replacement group: ".toList ++ m.whole)
-    return ([], expand)
+    return []
   let g ← mt.orEmpty i
-  let result ← replaceInline rec env g expand
-  let result := if expand.spans != some true then replaceAll result "\"".toList "&quot;".toList else result
-  return (result, expand)
-
-def replaceMatchGo (rec : Rec) (env : Env) (mt : Match) : Expand → List (Str × Match) → M Str
-  | _, [] => pure []
-  | expand, (before, m) :: rest => do
-    let (r, expand') ← replaceMatchStep rec env mt expand m
-    let t ← replaceMatchGo rec env mt expand' rest
-    pure (before ++ r ++ t)
+  let result ← replaceInline rec env g groupExpand
+  return if groupExpand.spans != some true then replaceAll result "\"".toList "&quot;".toList else result
 
 /-- `utils.replaceMatch(match, replacement, expand)` -/
-def replaceMatch (rec : Rec) (env : Env) (mt : Match) (replacement : Str) (expand : Expand := {}) : M Str := do
-  let (ps, tail) := Gen.P.utils_replaceMatch_0.pieces replacement
-  let out ← replaceMatchGo rec env mt expand ps
-  pure (out ++ tail)
+def replaceMatch (rec : Rec) (env : Env) (mt : Match) (replacement : Str) (expand : Expand := {}) : M Str :=
+  Gen.P.utils_replaceMatch_0.subM replacement (replaceMatchGroup rec env mt expand)
 
 /-! ## quotes -/
 
